@@ -218,6 +218,14 @@ impl Check for C16 {
                 h2.push(h2[j].clone());
             }
         }
+        // exportDefinitions() read out in the middle of a history (the result is thrown away)
+        let (mut h1, mut h2) = (h1, h2);
+        for h in [&mut h1, &mut h2] {
+            if s.chance(1, 3) {
+                let at = s.below(h.len() + 1);
+                h.insert(at, "#export".to_string());
+            }
+        }
         let mut overrides = BTreeMap::new();
         if !env.defs.is_empty() && s.chance(1, 5) {
             let i = s.below(env.defs.len());
@@ -240,7 +248,7 @@ impl Check for C16 {
             Some(c) => c,
             None => return out,
         };
-        let set: Vec<String> = case.h1.iter().cloned().collect::<BTreeSet<_>>().into_iter().collect();
+        let set: Vec<String> = case.h1.iter().filter(|n| !n.starts_with('#')).cloned().collect::<BTreeSet<_>>().into_iter().collect();
         let ov: Value = if case.overrides.is_empty() { Value::Null } else { json!(case.overrides) };
         let q = |calls: &[String]| json!({"q":"schemaCtx","template":case.cfg.template,"container":case.cfg.container,"calls":calls,"overrides":ov});
         let mut queries = vec![q(&case.h1), q(&case.h2)];
